@@ -376,7 +376,19 @@ func (g *gen) psetqValue(e N) N {
 // the simple loop, recover, incf / decf, push / pop
 func (g *gen) more(d int, vars []string) N {
 	v := func(n string) N { return N{"k": "var", "n": n} }
-	switch g.rng.Intn(16) {
+	switch g.rng.Intn(18) {
+	case 16, 17:
+		// (let ((vv (vector 0 k 0))) (setf (aref vv 0) (+ (aref vv 0) e)) (+ (aref vv 0) (aref vv 1))): every evaluation of
+		// (vector ...) makes a vector of its own, whatever was done to the one made by an earlier evaluation of the same form
+		vv := g.fresh()
+		es := []any{lit(I(0)), lit(I(g.rng.Intn(5))), lit(I(0))}
+		if g.one(3) {
+			es[2] = g.noex(func() N { return g.num(d-2, vars) })
+		}
+		i := g.rng.Intn(2)
+		return N{"k": "let", "bs": []any{N{"n": vv, "e": N{"k": "vector", "es": es}}},
+			"body": []any{g.m(N{"k": "setaref", "a": v(vv), "i": i, "e": N{"k": "add", "a": N{"k": "aref", "a": v(vv), "i": i}, "b": g.num(d-2, vars)}}),
+				g.m(N{"k": "add", "a": N{"k": "aref", "a": v(vv), "i": 0}, "b": N{"k": "aref", "a": v(vv), "i": 1}})}}
 	case 14, 15:
 		// every / some / find-if / count-if / remove-if with a lambda over (list ...): the function is called until the answer is
 		// known; in the control profile the function sometimes leaves through an enclosing block instead of answering
@@ -792,6 +804,12 @@ func (g *gen) control(d int, vars []string) N {
 }
 
 func (g *gen) cond(d int, vars []string) N {
+	if g.ctl && g.noExit == 0 && g.one(6) {
+		// a test that leaves instead of answering: (or (< a 3) (return-from b x))
+		if x := g.exitForm(d, vars); x != nil {
+			return N{"k": "or", "es": []any{g.m(N{"k": "lt", "a": g.num(d-1, vars), "b": lit(I(3))}), x}}
+		}
+	}
 	switch g.rng.Intn(5) {
 	case 0:
 		return g.m(lit(nilV()))
@@ -1065,6 +1083,12 @@ func render(n N) string {
 		return b.String() + ")"
 	case "sloop":
 		return "(loop" + rlist(n["body"].([]any)) + ")"
+	case "vector":
+		return "(vector" + rlist(n["es"].([]any)) + ")"
+	case "aref":
+		return fmt.Sprintf("(aref %s %d)", render(n["a"].(N)), n["i"])
+	case "setaref":
+		return fmt.Sprintf("(setf (aref %s %d) %s)", render(n["a"].(N)), n["i"], render(n["e"].(N)))
 	case "recover":
 		return fmt.Sprintf("(recover %s %s%s)", n["var"], render(n["on"].(N)), rlist(n["body"].([]any)))
 	case "incf", "decf":
